@@ -29,7 +29,8 @@ def model_check(ctx, wd):
 
 
 def run_scenario(job):
-    sid, seed, policy, nframes, gaps = job
+    sid, seed, policy, nframes, gaps = job[:5]
+    reconnect = job[5] if len(job) > 5 else None
     hsmsrun.quiet_logging()
     simrt.install()
     import secsgem.common.protocol as cp
@@ -43,15 +44,20 @@ def run_scenario(job):
         rtrig, dtrig, dq = disp._receiver_thread_trigger, disp._dispatcher_thread_trigger, disp._dispatch_queue
 
         rbuf_cond = ep.protocol._receive_buffer._buffer_lock
+        pend_data = [None]
 
         def op(kind, obj, val):
             me = s.cur.name if s.cur is not None else "?"
             if obj is rbuf_cond:
                 if kind == "notify":
                     s.emit("Data")            # ByteQueue.append: the bytes were just added (lock still held, no yield since)
+                    pend_data[0] = me
             elif obj is rtrig:
                 if kind == "set":
-                    s.emit("RSet", src="data" if me.startswith("conn_receiver") else "kick")
+                    # the set that announces the data just appended by this thread; every other set is a mere kick
+                    s.emit("RSet", src="data" if pend_data[0] == me else "kick")
+                    if pend_data[0] == me:
+                        pend_data[0] = None
                 elif kind == "wait":
                     s.emit("RWake")
                 elif kind == "clear":
@@ -66,42 +72,82 @@ def run_scenario(job):
 
         s.op_hook = op
         s.put_hook = lambda q, item: s.emit("Frame") if q is dq else None
+
+        def mk_frames(n, first_sys):
+            frames = [link.hsms_frame(stype=1, system=first_sys)]
+            for i in range(n):
+                if rng.random() < 0.3:
+                    frames.append(link.hsms_frame(stype=5, system=0x20000 + first_sys * 100 + i))
+                else:
+                    frames.append(link.hsms_frame(stype=0, system=0x10000 + first_sys * 100 + i, session=0, stream=1, function=rng.choice([1, 3, 13]),
+                                                  wbit=rng.random() < 0.7, body=bytes(rng.randrange(256) for _ in range(rng.choice([0, 0, 3, 40])))))
+            return frames
+
+        def feed_stream(frames):
+            stream = b"".join(frames)
+            bounds, acc = [], 0
+            for f in frames:
+                acc += len(f)
+                bounds.append(acc)
+            pos = 0
+            first = True
+            while pos < len(stream):
+                k = len(frames[0]) if first else min(len(stream) - pos, rng.choice([1, 3, 4, 10, 14, 15, 28, 60, 1000]))
+                first = False
+                before = sum(1 for b in bounds if b <= pos)
+                after = sum(1 for b in bounds if b <= pos + k)
+                rec["chunks"].append(after - before)
+                ep.link.feed(stream[pos:pos + k])
+                pos += k
+                g = rng.choice(gaps)
+                if g < 0:
+                    s.settle()
+                else:
+                    for _ in range(g):
+                        s.yield_point()
+            s.settle()
+
         ep.protocol.enable()
         ep.link.connect()
         s.settle()
-        frames = [link.hsms_frame(stype=1, system=1)]
-        for i in range(nframes):
-            if rng.random() < 0.3:
-                frames.append(link.hsms_frame(stype=5, system=0x20000 + i))
-            else:
-                frames.append(link.hsms_frame(stype=0, system=0x10000 + i, session=0, stream=1, function=rng.choice([1, 3, 13]), wbit=rng.random() < 0.7,
-                                              body=bytes(rng.randrange(256) for _ in range(rng.choice([0, 0, 3, 40])))))
-        stream = b"".join(frames)
-        bounds, acc = [], 0
-        for f in frames:
-            acc += len(f)
-            bounds.append(acc)
-        pos = 0
-        first = True
-        while pos < len(stream):
-            k = len(frames[0]) if first else min(len(stream) - pos, rng.choice([1, 3, 4, 10, 14, 15, 28, 60, 1000]))
-            first = False
-            before = sum(1 for b in bounds if b <= pos)
-            after = sum(1 for b in bounds if b <= pos + k)
-            rec["chunks"].append(after - before)
-            ep.link.feed(stream[pos:pos + k])
-            pos += k
-            g = rng.choice(gaps)
-            if g < 0:
-                s.settle()
-            else:
-                for _ in range(g):
-                    s.yield_point()
-        s.settle()
+        feed_stream(mk_frames(nframes, 1))
         s.run_until(lambda: False, max_dt=1.0)
+        if reconnect:
+            gate = None
+            if reconnect == "stalled":
+                # a response is being written to a full socket when the connection layer reports the loss
+                gate = simrt.Event()
+                ep.link.stall_event = gate
+                rec["chunks"].append(1)
+                ep.link.feed(link.hsms_frame(stype=5, system=0x60001))
+                s.advance(0.25)
+                ep.link.abrupt_close = True
+            n0 = ep.link.closed_count
+            ep.link.peer_close()
+            s.run_until(lambda: ep.link.closed_count > n0, max_dt=7.0)
+            ep.link.abrupt_close = False
+            if gate is not None and ep.link.closed_count == n0:
+                ep.link.stall_event = None
+                gate.set()
+                gate = None
+            ok, why = s.run_until(lambda: ep.link.closed_count > n0 and ep.cs == "NC", max_dt=30)
+            if not ok:
+                raise Machinery(f"close did not finish: {why}")
+            ep.link.stall_event = None
+            ep.link.connect()
+            s.settle()
+            if gate is not None:
+                gate.set()              # the blocked send comes back only now, on the new connection
+                s.settle()
+            feed_stream(mk_frames(nframes, 2))
+            s.run_until(lambda: False, max_dt=1.0)
         rec["delivered_all"] = True
 
-    ev_funcs = [(cp.Protocol._process_data, "RCall", "call", None),
+    import secsgem.common.byte_queue as bq
+    import secsgem.common.protocol_dispatcher as pd
+    ev_funcs = [(pd.ProtocolDispatcher.start, "RStart", "call", None), (pd.ProtocolDispatcher._receiver_thread_function, "REnd", "return", None),
+                (bq.ByteQueue.clear, "BufClear", "return", None),
+                (cp.Protocol._process_data, "RCall", "call", None),
                 (cp.Protocol._process_data, "RRet", "return", None)]
     s = simrt.run(main, seed=seed, policy=policy, switch_prob=0.4, max_vtime=1e6, wall_timeout=120, pct_depth=3, pct_horizon=600, event_funcs=ev_funcs)
     rec["outcome"] = s.outcome
@@ -119,14 +165,26 @@ def run_scenario(job):
     return rec
 
 
-def check(ctx, wd, pmap):
-    model_check(ctx, wd)
+def check(ctx, wd, pmap, only_reconnect=False, only_plain=False):
+    """only_reconnect / only_plain: the C06 / C08 checks reuse this leg for 30 (300) histories with / without a reconnect (the
+    model itself is checked by C04)."""
+    if not (only_reconnect or only_plain):
+        model_check(ctx, wd)
     rng = random.Random(ctx.seed + 404)
     jobs = []
     for i in range(1, (90 if ctx.quick else 900) + 1):
         pol = ["fifo", "random", "pct", "random"][i % 4]
         gaps = [[-1], [0, 1, 2, 5, 13, 34], [0, 0, 1, 3, 8, 21, 55, -1]][i % 3]
-        jobs.append((i, rng.randrange(1 << 30), pol, rng.choice([2, 3, 5, 8]), gaps))
+        rc = [None, None, "plain", "stalled"][i % 4 if i % 8 < 4 else 0]
+        if only_reconnect:
+            rc = ["plain", "stalled"][i % 2]
+            if i > (30 if ctx.quick else 300):
+                break
+        if only_plain:
+            rc = None
+            if i > (30 if ctx.quick else 300):
+                break
+        jobs.append((i, rng.randrange(1 << 30), pol, rng.choice([2, 3, 5, 8]), gaps, rc))
     recs = pmap(run_scenario, jobs)
     for r in recs:
         if r["outcome"] != "done" or r.get("errors"):
@@ -138,7 +196,7 @@ def check(ctx, wd, pmap):
     f = wd / "loops_traces.json"
     f.write_text(json.dumps([{"id": r["id"], "ev": r["ev"]} for r in recs]))
     cfg = ("SPECIFICATION TSpec\nCONSTANTS RClearFirst = TRUE\n DClearFirst = TRUE\n MaxF = 100000\n MaxKick = 100000\nCONSTRAINT Progress\n"
-           "INVARIANT TypeOK\nINVARIANT NoLostWakeup\nINVARIANT InOrderOnce\n")
+           "INVARIANT TypeOK\nINVARIANT NoLostWakeup\nINVARIANT InOrderOnce\nINVARIANT OneReceiver\n")
     rt = tlc.run("DispatcherLoopsTrace", cfg_text=cfg, workdir=wd, workers=4, env={"TRACE_FILE": str(f)}, what="loops_trace", coverage=False,
                  deadlock=False, timeout=1800, expect_error=True)
     best = {}
